@@ -27,7 +27,9 @@ def order_params(tier):
 
 EXTRAS = ["-", "the root also registers a teardown callback that raises a BaseException",
           "the root also registers an async teardown callback during which the scope around the caller's context is cancelled",
-          "the root also starts a service task with teardown_action=None that ends once a later-registered callback tells it to"]
+          "the root also starts a service task with teardown_action=None that ends once a later-registered callback tells it to",
+          "the root also registers a teardown callback that returns a non-coroutine awaitable",
+          "every component also registers a teardown through ONE shared @context_teardown function (as instances of one component class do)"]
 
 
 def _order(a, tier, with_extra=False):
@@ -41,7 +43,7 @@ def _order(a, tier, with_extra=False):
     if n == 5:
         S = 2  # thorough: five components with a shorter arbitrary prefix
     inherit = bool(pick(a["inherit"], 2)) if not with_extra else False
-    extra = 1 + pick(a["extra"], 3) if with_extra else 0
+    extra = 1 + pick(a["extra"], 5) if with_extra else 0
     variants = [pick(a[f"v{i}"], 3) for i in range(n)]
     tape = Tape([a[f"s{i}"] for i in range(S)])
     env = Env()
@@ -60,8 +62,10 @@ def _order(a, tier, with_extra=False):
             start = [pub, ("cp",), ("td", f"start{i}")]
         else:
             prep = [pub, ("td", f"prep{i}")]
-        if i == 0 and extra:
-            (start if start is not None else prep).append([None, ("tdbase", "X", CbBase), ("tdcancel", "X"), ("svcnone", "X")][extra])
+        if i == 0 and extra in (1, 2, 3, 4):
+            (start if start is not None else prep).append([None, ("tdbase", "X", CbBase), ("tdcancel", "X"), ("svcnone", "X"), ("tdaw", "X")][extra])
+        if extra == 5:
+            (start if start is not None else prep).append(("ctxtd", f"shared{i}"))
         nodes.append(NodeSpec(i, parents[i], prep, start, inherit=inherit))
     classes = build_classes(env, nodes)
     out = {}
@@ -150,7 +154,7 @@ SHAPES_X = shapes(2) + shapes(3)
 def exit_params(tier):
     shp = SHAPES_X if tier == "quick" else SHAPES_Q
     n = 3 if tier == "quick" else 4
-    return [P("shape", 0, len(shp) - 1), P("extra", 0, 2)] + [P(f"v{i}", 0, 2) for i in range(n)] + [P(f"s{i}", 0, 5) for i in range(2 if tier == "quick" else 3)]
+    return [P("shape", 0, len(shp) - 1), P("extra", 0, 4)] + [P(f"v{i}", 0, 2) for i in range(n)] + [P(f"s{i}", 0, 5) for i in range(2 if tier == "quick" else 3)]
 
 
 EXIT = Harness(
@@ -162,7 +166,7 @@ EXIT = Harness(
     title="everything the components registered is torn down when the caller's context is left - also when that teardown meets a fault",
     bound_text=lambda tier: f"all rooted trees with 2..{3 if tier == 'quick' else 4} components x per component {VARIANTS} x the root additionally registers "
     "{a teardown callback raising a BaseException, an async teardown callback during which the scope around the caller's context is cancelled, a service task "
-    f"with teardown_action=None that ends once a later callback tells it to}}; first {2 if tier == 'quick' else 3} scheduling decisions arbitrary",
+    f"with teardown_action=None that ends once a later callback tells it to, a teardown callback returning a non-coroutine awaitable}} / every component registers through one shared @context_teardown function; first {2 if tier == 'quick' else 3} scheduling decisions arbitrary",
     oracle="O-order's oracle, and: every teardown callback registered by any component still runs, LIFO, after the fault; the exit raises the group holding the "
     "callback's BaseException / only cancellation; the service task has ended before callbacks registered before it run and before the block is left",
     outside="several faults in one teardown",
